@@ -324,7 +324,10 @@ class DataFormat(object):
         if name == KEY_ENCODING:
             try:
                 codecs.lookup(value)
-            except (LookupError, ValueError):
+                # Refuse codecs that do not convert between text and bytes, for example "hex" or "rot13".
+                "".encode(value)
+                b"".decode(value)
+            except (LookupError, ValueError, TypeError):
                 raise errors.InterfaceError(
                     "value for data format property %s is %s but must be a valid encoding"
                     % (_compat.text_repr(KEY_ENCODING), _compat.text_repr(value)),
